@@ -66,9 +66,8 @@ def judge_snap(edges, coord, snap, result):
         with np.errstate(invalid="ignore", over="ignore"):
             d = np.abs(e - coord)
         if not np.all(np.isfinite(d)):
-            # +-inf: the nearest edge is the outermost one on that side
-            want = n if coord > 0 else 0
-            return (r == want), f"infinite coordinate: want outermost edge {want}, got {r}"
+            # +-inf / overflow: every distance is infinite, so every edge is a minimiser
+            return None, "infinite distance to every edge"
         tol = 4.0 * eps * max(float(np.max(np.abs(e))), abs(coord))
         if d[r] <= float(d.min()) + tol:
             return True, ""
